@@ -49,6 +49,13 @@ fn main() {
             "C01" | "C02" | "C03" | "C04" | "C05" | "C09" | "C10" | "C19" | "C06" | "C07" | "C13" => {
                 let v: Option<serde_json::Value> = std::fs::read(&path).ok().and_then(|d| serde_json::from_slice(&d).ok());
                 match v {
+                    Some(v) if v["replay"]["engine"] == "seq-full" => {
+                        let code = seq_full::replay(&v);
+                        if code == 1 {
+                            println!("VIOLATION property={} replay={}", prop, path);
+                        }
+                        code
+                    }
                     Some(v) if v["replay"]["engine"] == "sim" => {
                         let code = sim_checks::replay(prop, &v);
                         if code == 1 {
